@@ -405,7 +405,7 @@ fn cal_of_kind(k: u8) -> CalType {
 }
 
 fn fx_market(id: u32) -> Option<FXRates> {
-    // id encodes: n (2..4), quote form (3), settlement (2), base choice (3), history (4)
+    // id encodes: n (2..4), quote form (3), settlement (2), base choice (3), history (6)
     let mut c = id;
     let n = 2 + (c % 3) as usize;
     c /= 3;
@@ -415,8 +415,8 @@ fn fx_market(id: u32) -> Option<FXRates> {
     c /= 2;
     let basesel = c % 3;
     c /= 3;
-    let hist = c % 4;
-    c /= 4;
+    let hist = c % 6;
+    c /= 6;
     if c > 0 {
         return None;
     }
@@ -449,6 +449,23 @@ fn fx_market(id: u32) -> Option<FXRates> {
             fx.set_ad_order(ADOrder::Zero).ok()?;
             fx.update(vec![mk(n - 2, vals[n - 2] * 0.875)]).ok()?;
             fx.set_ad_order(ADOrder::Zero).ok()?;
+        }
+        4 => {
+            // a refused update (a known pair first, then a pair that is not in the market) must leave nothing behind
+            let foreign = FXRate::try_new("nok", "sek", Number::F64(1.1), st).unwrap();
+            if fx.update(vec![mk(0, vals[0] * 1.25), foreign]).is_ok() {
+                return None;
+            }
+        }
+        5 => {
+            // refused for an inconsistent settlement date, then an order switch
+            let other = if settle { None } else { Some(to_ndt(19901)) };
+            let bad = FXRate::try_new(CCYS[pairs[0].0], CCYS[pairs[0].1], Number::F64(vals[0] * 1.5), other).unwrap();
+            let refused = fx.update(vec![bad]).is_err();
+            if !refused && n > 2 {
+                return None;
+            }
+            fx.set_ad_order(ADOrder::Two).ok()?;
         }
         _ => {}
     }
@@ -512,6 +529,21 @@ pub fn check(case: &Case, idx: u64, acc: &mut Acc) {
             all3_dual(&mut rep, &d);
             let d2 = if nn == 0 { Dual2::new(-1.0 / 7.0, vec![]) } else { Dual2::try_new(-1.0 / 7.0, names, g, h).unwrap() };
             all3_dual2(&mut rep, &d2);
+            // the same contents held in non-standard memory layouts (reversed-memory gradient, column-major, asymmetric
+            // second-derivative array built through clone_from)
+            if nn >= 2 {
+                use ndarray::{Array1, Array2, Axis};
+                let mut rev: Vec<f64> = d.dual().to_vec();
+                rev.reverse();
+                let mut ga = Array1::from(rev);
+                ga.invert_axis(Axis(0));
+                let dn = Dual::clone_from(&d, d.real(), ga.clone());
+                all3_dual(&mut rep, &dn);
+                let asym = Array2::from_shape_fn((nn, nn), |(i, j)| 0.125 * (1 + i * nn + j) as f64 / 3.0);
+                let hf = Array2::from_shape_fn((nn, nn), |(i, j)| asym[[j, i]]).reversed_axes();
+                let d2n = Dual2::clone_from(&d2, d2.real(), ga, hf);
+                all3_dual2(&mut rep, &d2n);
+            }
             rep.acc.sample(|| serde_json::to_value(case).unwrap());
         }
         Case::PermutedNames { id } => {
@@ -888,7 +920,7 @@ pub fn cases(tier: Tier) -> Vec<Case> {
             }
         }
     }
-    for id in 0..(3 * 3 * 2 * 3 * 4) {
+    for id in 0..(3 * 3 * 2 * 3 * 6) {
         out.push(Case::Fx { id });
     }
     for id in 0..6 {
@@ -913,13 +945,13 @@ pub fn run(ctx: &Ctx, replay_file: Option<String>) -> ! {
          as a dual number's value, gradient entry and Hessian entry, as a curve node value and index base, as an FX quote \
          (float and Dual), as a spline coefficient and knot, and sent through three channels: JSON of the type, the \
          tagged from_json entry point (hook), and bincode (the byte state of __getstate__/__setstate__). Structures: \
-         dual numbers with 0-3 names (unicode, quotes, empty); numbers listing the same names in every order loaded \
+         dual numbers with 0-3 names (unicode, quotes, empty), also held in non-standard memory layouts (reversed-memory gradient, column-major asymmetric second-derivative array); numbers listing the same names in every order loaded \
          one after the other on one thread and inside one curve / spline / FX market; every week mask x holiday subsets for Cal; unions of 1-3 (and 4-14) member calendars with \
          None / [] / 1-2 settlement calendars; named calendars (name-only storage checked in the JSON text, full \
          1970-2200 behaviour compared); curves: 6 interpolators x 3 orders x 3 calendar kinds x 11 conventions x 5 \
          modifiers x index base on/off, and curves with a history of order switches; FX markets of 2-4 currencies x \
-         float/Dual/Dual2 quotes x settlement x three base choices x four histories (fresh, order switch, update, \
-         update between order switches); splines of the three types with and without coefficients; typed CurveDF; large objects on a size menu (5 .. 130): numbers with that many names, curves with that many nodes at orders 0-2, \
+         float/Dual/Dual2 quotes x settlement x three base choices x six histories (fresh, order switch, update, \
+         update between order switches, refused update with a known pair listed first, refused update for its settlement date followed by an order switch); splines of the three types with and without coefficients; typed CurveDF; large objects on a size menu (5 .. 130): numbers with that many names, curves with that many nodes at orders 0-2, \
          cubic splines with that many coefficients (float and Dual), FX chains of up to 14 currencies. \
          Oracle: the type's own ==, bitwise identity of EVERY float field, identical names/order/kind, and an identical \
          answer to a query battery (rates of all pairs at all three orders, curve look-ups and index values on the C11 \
